@@ -40,7 +40,7 @@ m = {
 }
 for p in props:
     pid = p["id"]
-    if pid in checks and pid in meta["claimed"]:
+    if pid in checks and pid in meta["claimed"] and pid in meta.get("integrated", []):
         mm = meta["claimed"][pid]
         m["checks"].append({
             "property_id": pid,
